@@ -7,6 +7,9 @@ EVERY = lambda l: True
 FAMS = ["flow", "iso", "hot", "cb", "sys"]
 # size of the random sample of the rule space per family in the quick tier (0 = the whole space)
 QUICK = {"flow": 400, "iso": 0, "hot": 400, "cb": 400, "sys": 0}
+# the flow space has 2.6 million rules, the hotspot space 39 thousand: the thorough tier samples 12 000 of each
+# (x 5 loading calls x 9 entry shapes) and enumerates the other three spaces (13 824 / 40 / 70 rules)
+THOROUGH = {"flow": 12000, "iso": 0, "hot": 12000, "cb": 0, "sys": 0}
 
 
 def run(ctx):
@@ -15,13 +18,13 @@ def run(ctx):
     cases = ctx.path("cases.jsonl")
     total = 0
     for f in FAMS:
-        k = QUICK[f] if q else 0
+        k = QUICK[f] if q else THOROUGH[f]
         cfg = "Gen_RuleSpace_%s_%d.cfg" % (f, k)
         n = vlib.generate(ctx, "MC_RuleSpace", cfg, cases, workers=4, timeout=3000, seed=ctx.seed, tag="space-" + f)
         total += n
     ctx.behaviours += total
     ctx.notes["cases"] = total
-    ctx.notes["exhaustive"] = not q
+    ctx.notes["exhaustive_families"] = [f for f in FAMS if (QUICK if q else THOROUGH)[f] == 0]
     vlib.vh(ctx, ["space-run", "--in", cases, "--jobs", 12, "--out", ctx.path("cases.ndjson")], timeout=6000)
     rej = vlib.validate_traces(ctx, TRACE[0], TRACE[1], ctx.path("cases.ndjson"), "cases", is_reset=EVERY, chunk=2500,
                                max_rejects=100000, timeout=3000)
